@@ -7,7 +7,7 @@ WT=/tmp/try_$$
 git -C /repo worktree add --detach -q $WT HEAD
 ( cd $WT && git apply "$PATCH" ) || { echo "patch does not apply"; git -C /repo worktree remove --force $WT; exit 2; }
 cd /verif
-VERIF_REPO=$WT ./check $PROP --tier $TIER; RC=$?
+RC=0; VERIF_REPO=$WT ./check $PROP --tier $TIER || RC=$?
 ALT=/verif/.build/alt_$(python3 -c "import hashlib,sys; print(hashlib.sha256('$WT'.encode()).hexdigest()[:10])")
 rm -rf "$ALT"
 git -C /repo worktree remove --force $WT
